@@ -15,10 +15,10 @@ func heartbeat(r *Run) {}
 type Outcome int
 
 const (
-	GoalMet Outcome = iota
-	Stuck           // nothing enabled and no activity for the idle bound
-	TimedOut        // simulated time limit reached while still making steps
-	Aborted         // a violation was recorded
+	GoalMet  Outcome = iota
+	Stuck            // nothing enabled and no activity for the idle bound
+	TimedOut         // simulated time limit reached while still making steps
+	Aborted          // a violation was recorded
 )
 
 func (o Outcome) String() string {
